@@ -37,14 +37,29 @@ func init() {
 
 // recProvider is a recording key-value provider.
 type recProvider struct {
-	data map[string][]byte
+	data   map[string][]byte
+	retain bool // keep the caller's slices until the transaction ends (as Badger does)
+	held   map[string][]byte
 }
 
 func (p *recProvider) RunTransaction(ctx context.Context, fn verif.TransactionFn) error {
-	return fn(ctx)
+	if !p.retain {
+		return fn(ctx)
+	}
+	p.held = map[string][]byte{}
+	err := fn(ctx)
+	for k, v := range p.held { // "commit": only now are the values read
+		p.data[k] = append([]byte(nil), v...)
+	}
+	p.held = nil
+	return err
 }
 func (p *recProvider) DB(context.Context) verif.QueryManager { return p }
 func (p *recProvider) Set(key, val []byte) error {
+	if p.held != nil {
+		p.held[string(key)] = val
+		return nil
+	}
 	p.data[string(key)] = append([]byte(nil), val...)
 	return nil
 }
@@ -195,6 +210,38 @@ func c19Records(tier string, seed int64, idx int, scratch string) rt.CaseResult 
 			}
 		}
 		c.AddDistinct(fmt.Sprintf("dec-many/%d", m))
+	}
+	// several records written inside ONE transaction of the provider. Like Badger, the provider
+	// keeps the value slices it was handed until the transaction ends (it must not copy earlier),
+	// so an encoder that reuses its buffer between records corrupts the earlier ones.
+	for i := 0; i < n/20; i++ {
+		p := &recProvider{data: map[string][]byte{}, retain: true}
+		repo := verif.NewFileRepo(p)
+		var want []verif.File
+		m := 2 + rng.Intn(5)
+		err := repo.RunTransaction(context.Background(), func(ctx context.Context) error {
+			for j := 0; j < m; j++ {
+				kc := keyClasses[rng.Intn(len(keyClasses))]
+				f := verif.File{Key: kc.v(rng), Seq: verif.Seq(seqClasses[rng.Intn(len(seqClasses))].v(rng)), TxId: randUUID(rng), ContentId: randUUID(rng)}
+				want = append(want, f)
+				if err := repo.Set(ctx, f); err != nil {
+					return err
+				}
+			}
+			return nil
+		})
+		c.Evals++
+		if err != nil {
+			c.Violate("encode-error in-transaction", err.Error(), nil)
+			return c
+		}
+		for _, f := range want {
+			if got := p.data["file/"+f.ContentId]; !bytes.Equal(got, specEncode(f)) {
+				c.Violate("encode-layout several-records-in-one-transaction", fmt.Sprintf("%d records written in one transaction: record %s was stored as %x", m, descFile(f), trunc(got)), map[string]any{"record": descFile(f), "got": hex.EncodeToString(trunc(got)), "want": hex.EncodeToString(trunc(specEncode(f)))})
+				return c
+			}
+		}
+		c.AddDistinct(fmt.Sprintf("enc-tx/%d", m))
 	}
 	if idx == 0 {
 		f := verif.File{Key: "key", Seq: 0x0102030405060708, TxId: "00112233-4455-6677-8899-aabbccddeeff", ContentId: "ffeeddcc-bbaa-9988-7766-554433221100"}
